@@ -35,7 +35,6 @@ PIPELINES = {
                   'set_type_a_string', 'rename_a', 'checkpoint']),
 }
 OBSERVERS = {'dump_to_path', 'dump_to_zip', 'stream', 'checkpoint'}
-KF_PAR = 'C04-parallelize-upstream-failure'
 
 
 def model(rep, t):
@@ -373,24 +372,33 @@ def run():
         if not ok:
             rep.violation(it, dict(provoked=it['label'], run=run_), category='provoked/%s/%s' % (it['label'][:50], run_['outcome']))
     rep.sample(dict(provoked=pitems[0]['label'], run=pruns[0]))
-    # an upstream failure INSIDE parallelize, under the cooperative scheduler (no 10 s join timeout, no leaked OS processes)
+    # an upstream failure INSIDE parallelize, under the cooperative scheduler: every schedule is validated against
+    # ParallelizeTrace.tla with FailAt set - the run must raise the upstream iterator's own exception, with every actor
+    # finished, nothing delivered twice and nothing delivered that comes after the failure
     from .. import sched
+    from . import c18
     sitems = [dict(R=5, N=(i % 3) + 1, sel=[1, 2, 3, 4, 5] if i % 2 else [2, 4], seed=r.randrange(10 ** 9),
                    strategy=['uniform', 'feeders_last', 'priority'][i % 3], fail_after=i % 5) for i in range(30 if t == 'quick' else 300)]
     sres = pmap(sched.run_schedule, sitems, chunksize=4)
     errs = harness_errors(sres)
     if errs:
         raise tlc.MachineryError('harness error in parallelize failure schedules: ' + errs[0])
+    groups = {}
     for it, tr in zip(sitems, sres):
-        rep.count(1, traces=1)
-        rep.mark_distinct(it)
-        if tr['error_type'] == 'UpstreamError' and not tr['leftovers']:
-            continue
-        if tr['error_type'] == 'ValueError' and not tr['fin']['terminated'] and all(n == 'fetcher' or n.startswith('w') for n in tr['leftovers']):
-            rep.known(KF_PAR, 'upstream failure inside parallelize surfaces as ValueError, workers and fetcher stay blocked', it)
-        else:
-            rep.violation(it, dict(why='upstream failure inside parallelize: %s' % ('the run returned normally with rows missing' if tr['fin']['terminated'] else 'unexpected outcome'),
-                                   error=tr['error'], leftovers=tr['leftovers'], delivered=tr['fin']['delivered']), category='parallelize-upstream-failure')
+        groups.setdefault((it['R'], it['N'], tuple(it['sel']), it['fail_after'] + 1), []).append((it, tr))
+    for (R_, N_, sel_, failat), lst in sorted(groups.items()):
+        verd = c18.validate(rep, R_, N_, list(sel_), [x[1] for x in lst], (), failat)
+        for (it, tr), v in zip(lst, verd):
+            rep.count(1, traces=1)
+            rep.mark_distinct(it)
+            if not v['rec_once']:
+                rep.violation(it, dict(why='upstream failure inside parallelize: %s' % ('the run returned normally with rows missing' if tr['fin']['terminated']
+                                                                                     else 'the original failure did not surface cleanly'),
+                                       error=tr['error'], leftovers=tr['leftovers'], delivered=tr['fin']['delivered'], deadlock=tr['deadlock']),
+                              category='parallelize-upstream-failure')
+            elif v['matched'] != v['total'] or not v['inv'] or not v['end_ok']:
+                rep.model_drift('failing-upstream schedule is not a behaviour of Parallelize.tla (matched %s/%s events) although the failure surfaced cleanly'
+                                % (v['matched'], v['total']), it)
     rep.notes['pipelines'] = {k: v[1] for k, v in PIPELINES.items()}
     rep.assumptions += ['"committed" for an observer = its descriptor / final file exists after the run (datapackage.json, valid zip with datapackage.json, stream file under its final name, checkpoint stream.ndjson)',
                         'a fault "at first row" fires only if a row reaches the faulty step; whether it fired is recorded by the faulty step itself']
